@@ -545,6 +545,7 @@ class ClassParser(BaseParser):
                     post_init(_obj_self, values, context)
 
             __init__.__parser__ = self
+            __init__.__takes_mapping__ = True
         else:
             if not no_parse:
                 self.init_parser = self.function_parser_cls.apply_for(init_func)
@@ -631,7 +632,12 @@ def init_dataclass(
     inst.__context__ = new_context
 
     # if parser.init_parser:
-    cls.__init__(inst, **data)
+    if getattr(cls.__init__, "__takes_mapping__", False):
+        # the generated __init__(_obj_self, _d=None, **kwargs) takes the whole mapping as one argument: a key of the
+        # input that is spelled like one of its own parameters ('_obj_self', '_d') is data, not an argument
+        cls.__init__(inst, data if isinstance(data, dict) else dict(data))
+    else:
+        cls.__init__(inst, **data)
 
     return inst
 
